@@ -53,6 +53,8 @@ pub fn path_class(graph: &ModuleGraph, s: &ModuleSpecifier) -> &'static str {
   let mut cur = s;
   let mut hops = 0;
   let mut shadowed = false;
+  let mut shadowed_by_rejection = false;
+  let mut shadowed_behind_hop = false;
   seen.insert(cur.clone());
   loop {
     let has_slot = graph.modules().any(|m| m.specifier() == cur)
@@ -61,6 +63,28 @@ pub fn path_class(graph: &ModuleGraph, s: &ModuleSpecifier) -> &'static str {
       Some(t) => {
         if has_slot {
           shadowed = true;
+          // the known finding is about entries the *loader* produced for a
+          // seeded redirect source; an entry produced without asking the
+          // loader (a rejected import attribute, a source-phase rejection)
+          // is a different shape
+          if graph.module_errors().any(|e| {
+            e.specifier() == cur && {
+              let m = e.to_string();
+              m.contains("import attribute type") || m.contains("source phase")
+            }
+          }) {
+            // stored under the very specifier an import resolves to, or
+            // one seeded hop further (the builder applies one known hop
+            // before rejecting)?
+            let requested = graph.modules().any(|m| {
+              m.dependencies().values().any(|d| d.get_code() == Some(cur) || d.get_type() == Some(cur))
+            });
+            if requested {
+              shadowed_by_rejection = true;
+            } else {
+              shadowed_behind_hop = true;
+            }
+          }
         }
         hops += 1;
         if !seen.insert(t.clone()) {
@@ -71,7 +95,11 @@ pub fn path_class(graph: &ModuleGraph, s: &ModuleSpecifier) -> &'static str {
       None => break,
     }
   }
-  if shadowed {
+  if shadowed_by_rejection {
+    "slot-shadowed-by-rejected-import"
+  } else if shadowed_behind_hop {
+    "slot-shadowed-behind-a-seeded-hop-by-rejected-import"
+  } else if shadowed {
     "slot-shadowed"
   } else if hops >= 10 {
     "long-chain"
@@ -85,7 +113,7 @@ pub fn path_class(graph: &ModuleGraph, s: &ModuleSpecifier) -> &'static str {
 /// the class alone; elsewhere it names the API and what the walk reached.
 fn sig(fine: String, class: &str) -> String {
   match class {
-    "cycle" | "slot-shadowed" => format!("lookups-disagree-with-walk/{}", class),
+    "cycle" | "slot-shadowed" | "slot-shadowed-behind-a-seeded-hop-by-rejected-import" => format!("lookups-disagree-with-walk/{}", class),
     _ => fine,
   }
 }
@@ -105,7 +133,7 @@ struct Case {
   hops: usize,
   terminal: Terminal,
   max_redirects: usize,
-  entry: u8, // 0 root, 1 static dep, 2 dynamic dep, 3 @deno-types dep
+  entry: u8, // 0 root, 1 static dep, 2 dynamic dep, 3 @deno-types dep, 4 x-typescript-types, 5 rejected text import, 6 plain import then rejected text import
   kind: GraphKind,
   /// lockfile redirects seeded before the build
   lock_redirects: Vec<(String, String)>,
@@ -168,6 +196,18 @@ fn build_case(c: &Case) -> (World, Vec<String>, String) {
           head
         ),
       );
+      vec![root]
+    }
+    5 => {
+      // an asset-style import whose unstable flag is off: rejected without
+      // asking the loader
+      w.add_text(&root, &format!("import t from \"{}\" with {{ type: \"text\" }};\n", head));
+      vec![root]
+    }
+    6 => {
+      // the same after a plain import of the same specifier elsewhere
+      w.add_text("https://h.test/first.ts", &format!("import \"{}\";\n", head));
+      w.add_text(&root, &format!("import \"./first.ts\";\nimport t from \"{}\" with {{ type: \"text\" }};\n", head));
       vec![root]
     }
     _ => {
@@ -348,7 +388,7 @@ fn check_graph(
               classes.push(path_class(graph, ts));
             }
           }
-          let class = ["cycle", "slot-shadowed", "long-chain"]
+          let class = ["cycle", "slot-shadowed-by-rejected-import", "slot-shadowed-behind-a-seeded-hop-by-rejected-import", "slot-shadowed", "long-chain"]
             .into_iter()
             .find(|c| classes.contains(c))
             .unwrap_or("plain");
@@ -442,9 +482,9 @@ pub fn run(tier: Tier, seed: u64) -> i32 {
     }
     for terminal in terminals {
       for max_redirects in [0usize, 1, 10, 20] {
-        for entry in 0..5u8 {
+        for entry in 0..7u8 {
           for kind in [GraphKind::All, GraphKind::CodeOnly] {
-            if entry >= 3 && kind == GraphKind::CodeOnly {
+            if (3..=4).contains(&entry) && kind == GraphKind::CodeOnly {
               continue;
             }
             cases.push(Case {
@@ -490,7 +530,7 @@ pub fn run(tier: Tier, seed: u64) -> i32 {
       hops,
       terminal,
       max_redirects: *rng.pick(&[1usize, 10, 20]),
-      entry: rng.below(5) as u8,
+      entry: rng.below(7) as u8,
       kind: GraphKind::All,
       lock_redirects: lock,
       scheme: "https",
